@@ -117,17 +117,6 @@ def has_nd_zero(d):
     return any_node(d, lambda n: n["class"] == "NumpyArray" and len(n["shape"]) > 1 and 0 in n["shape"][1:])
 
 
-@known("numpy_nd_zero_inner_dim")
-def _(case, vio):
-    kind, op, parts = _parts(vio)
-    return any(has_nd_zero(d) for d in descs_of(case))
-
-
-@crash_exclusion("numpy_nd_zero_inner_dim")
-def _(spec, desc):
-    return has_nd_zero(desc) and spec["op"] not in ("tojson", "validity", "type", "form", "purelist", "deep_copy")
-
-
 @known("num_axis0_recordarray")
 def _(case, vio):
     kind, op, parts = _parts(vio)
